@@ -289,6 +289,13 @@ class Verdict:
 
 
 def write_evidence(prop, tier, level, coverage, wall, violations, assumptions=()):
+    if os.environ.get("VERIF_BIN_DIR"):
+        # development run against a scratch build (a mutant): never touch the real evidence
+        d = os.path.join(WORK, "scratch_evidence")
+        os.makedirs(d, exist_ok=True)
+        json.dump({"property_id": prop, "tier": tier, "coverage": coverage, "violations": violations},
+                  open(os.path.join(d, prop + ".json"), "w"), indent=1)
+        return
     os.makedirs(os.path.join(VERIF, "evidence"), exist_ok=True)
     ev = {
         "property_id": prop,
